@@ -60,6 +60,67 @@ def run_design(ctx, what):
     return recs
 
 
+# ---- LONG strings (harness-chosen cases, the specification's row machine is the oracle) ---------------------
+# equal costs times a NON-dyadic factor: the library factors the common cost out (`mult`), so distances are
+# factor x unit distance (one rounding) and the optimal-completion targets are those of unit costs
+NONDYADIC = [0.1, 0.3, 0.7]
+HUGE = 8388608  # 2**23: two deletions reach 2**24, where float32 drops odd integers
+
+
+def _row(rng, n, p_eos):
+    return [0 if rng.random() < p_eos else rng.randint(1, 3) for _ in range(n)]
+
+
+def long_cases(ctx, padded=True):
+    """seeded <<ref row, hyp row>> pairs: medium (6..12 symbols, eos anywhere) and a few LONG PADDED ones (short
+    content, then eos, then > 256 symbols of eos / garbage: more than a byte can count)"""
+    rng = ctx.rng
+    n_mid = 40 if ctx.quick else 300
+    cases = []
+    for i in range(n_mid):
+        R, H = rng.randint(6, 12), rng.randint(6, 12)
+        p = rng.choice((0.0, 0.05, 0.2))
+        ref, hyp = _row(rng, R, p), _row(rng, H, p)
+        if i % 3 == 0:  # related strings: the hypothesis is an edited copy of the reference
+            hyp = [s for s in ref if rng.random() > 0.2]
+            hyp = [rng.randint(1, 3) if rng.random() < 0.2 else s for s in hyp] or [1]
+            hyp = hyp[:12]
+        cases.append((ref, hyp))
+    for T in (() if not padded else (262,) if ctx.quick else (262, 300, 520)):
+        for kind in (("garbage",) if ctx.quick else ("eos", "garbage")):
+            body_r, body_h = _row(rng, rng.randint(3, 7), 0.0), _row(rng, rng.randint(3, 7), 0.0)
+            fill = (lambda: 0) if kind == "eos" else (lambda: rng.choice((0, 0, 0, 1, 2, 3)))
+            ref = body_r + [0] + [fill() for _ in range(T - len(body_r) - 1)]
+            hyp = body_h + [0] + [fill() for _ in range(T - len(body_h) - 1)]
+            cases.append((ref, hyp))
+    return cases
+
+
+def run_long(ctx, costs=("<<1, 1, 1>>", "<<1, 2, 1>>", "<<2, 1, 3>>", "<<2, 1, 1>>"), name="EditDistanceLong", padded=True):
+    """TLC on the harness-chosen long cases -> exported behaviours (records as in run_design).
+    padded=False: without the > 256-symbol rows (a cost of 2**23 times 262 rows leaves TLC's 32-bit integers)"""
+    cases = long_cases(ctx, padded)
+    gdir = ctx.subdir("ed_long")
+    tup = lambda r: "<<" + ", ".join(str(x) for x in r) + ">>"
+    with open(os.path.join(gdir, name + ".tla"), "w") as f:
+        f.write("---- MODULE %s ----\nEXTENDS EditDistanceMC\n" % name)
+        f.write("GivenCases == <<\n  " + ",\n  ".join("<<%s, %s>>" % (tup(r), tup(h)) for r, h in cases) + "\n>>\n")
+        f.write("LongCosts == {" + ", ".join(costs) + "}\n====\n")
+    with open(os.path.join(SPECS, "EditDistance_long.cfg")) as f:
+        cfg = f.read()
+    cfgp = os.path.join(gdir, name + ".cfg")
+    with open(cfgp, "w") as f:
+        f.write(cfg.replace("CostSet <- CostsLong", "CostSet <- LongCosts"))
+    res = tlc.run(os.path.join(gdir, name + ".tla"), cfgp, workers=8, coverage=True, timeout=3000, lib=SPECS)
+    tlc.require_ok(res, "EditDistance/" + name)
+    tlc.require_covered(res, ACTIONS, "EditDistance/" + name)
+    ctx.add_tlc("EditDistance/" + name, res)
+    if len(res.records) < len(cases):
+        raise MachineryError("EditDistance long export: %d records for %d cases" % (len(res.records), len(cases)))
+    ctx.count("long_behaviours", len(res.records))
+    return res.records
+
+
 def group_records(recs):
     groups = {}
     for r in recs:
